@@ -313,6 +313,7 @@ class QvmCpu:
     def tick(self):
         if self.received_keyboard_interrupt:
             self.received_keyboard_interrupt = False
+            self.trapped_addr = self.pc
             self._trap(TrapCode.KEYBOARD_INTERRUPT)
             return
 
